@@ -77,3 +77,13 @@ Definition restore_cmd (key : bytes) (e : entry_result) : option (list bytes) :=
   | Entry p raw => Some [RESTORE; key; ttl_restore p; raw]
   | _ => None
   end.
+
+(* produce_entries + forward_entries over a whole batch (keys of one SCAN reply, or queued UMSYNC keys): the replies are consumed
+   pairwise per key, in order; the first invalid reply fails the whole batch (nothing is forwarded); otherwise one RESTORE per
+   key that has an entry, in key order *)
+Definition is_invalid (e : entry_result) : bool := match e with InvalidReply => true | _ => false end.
+
+Definition batch_cmds (l : list (bytes * resp * resp)) : option (list (list bytes)) :=
+  let es := map (fun x => (fst (fst x), scan_entry (snd (fst x)) (snd x))) l in
+  if existsb (fun ke => is_invalid (snd ke)) es then None
+  else Some (flat_map (fun ke => match restore_cmd (fst ke) (snd ke) with Some c => [c] | None => [] end) es).
